@@ -352,4 +352,31 @@ PROPS["C08"] = {
     "rule": "8 (thorough 40) lookup circuits x positive flow + 4-6 lookup-specific corruptions; distinct = distinct request lines",
 }
 
+def judge_c17(d):
+    a, b = d["impl"], d["model"]
+    if a == "PANIC":
+        return "a proof decoder panics on this byte string"
+    rq = d["request"].split()[1]
+    if rq in ("proof", "cproof"):
+        return "decoding/re-encoding of a valid encoding differs between the implementation and the codec model (consumed bytes / re-encoding equality)"
+    if rq in ("proofeq", "cproofeq"):
+        return "the decoded value differs from the value the bytes were written from"
+    return "decodability of a mutated encoding differs between the implementation and the codec model"
+
+
+PROPS["C17"] = {
+    "lean_modules": ["P2.Props.C17"],
+    "audit_module": "P2.Audit.C17",
+    "harness_prop": "c17",
+    "profile": "release",
+    "judge": judge_c17,
+    "trusted_base": KERNEL_TB + [
+        "modelled, not verified: the proof / compressed-proof codecs of util/serialization/mod.rs transcribed by hand into a codec combinator language (P2/Model/Codec.lean); circuit/prover/verifier/common data encodings and the gate/generator serializers are exercised on the implementation only (round trip, re-encoding, digests, interchangeability) — partial",
+    ],
+    "level_text": "Lean 4: a codec combinator language with the generic theorems read(write v ++ rest) = (v, rest) for every well-formed value (by induction on the codec), decoders consume a prefix (no unbounded allocation: the three input-driven lengths are bounded by the input), the u8 length guard is necessary and sharp; instances for every proof codec with lengths taken from the common data; tied to to_bytes/from_bytes by exact agreement on valid encodings (bytes consumed, byte-identical re-encoding, decoded value) and on mutated encodings (decodability); the property's oracle on the implementation: every data type round-trips for circuits containing all 16 gate and 24 generator types, restored circuits have equal digests and prove/verify interchangeably (four-way)",
+    "level_note": "Witness generation is not deterministic (randomised spare PI wires), so 'restored proof equals original proof' is not an oracle; agreement on deterministic wires is. BaseSumGate<4> is outside the default registry: clean Err, counted. Circuit-data decoders (not proof decoders) pre-allocate from input lengths and can abort on damaged bytes: noted in DESIGN.md, outside C17/C18's statements.",
+    "assumptions": [],
+    "rule": "kitchen-sink circuit (all gadgets, tables of 5/26/40 entries, random access 2..64) with and without zk, generated programs, two recursion circuits; proofs and compressed proofs; valid + mutated encodings (truncations, bit flips, 8-byte windows, sibling counts, public-input counts, query indices, appended bytes, random strings); distinct = distinct request lines",
+}
+
 NOT_CLAIMED = {}
